@@ -161,8 +161,24 @@ func init() {
 		h.t.active = false
 		return was
 	}
+	// Reset with the semantics of a module whose go directive is below 1.23 (/repo: go 1.19):
+	// the channel is buffered and NOT drained, a tick already delivered stays in it.
 	intrinsics["(*time.Timer).Reset"] = func(fr *frame, a []value) value {
-		panic(unsupported("time.Timer.Reset"))
+		h := timerHandles[a[0].(*value)]
+		if h == nil || h.c == nil {
+			panic(unsupported("time.Timer.Reset on a timer not created by NewTimer"))
+		}
+		d := int64(asInt64(a[1]))
+		s := theSched
+		was := h.t.active
+		h.t.active = false
+		c := h.c
+		h.t = s.addTimer(d, func() {
+			if len(c.buf) < c.capacity || hasLive(c.recvq) {
+				trySend(c, timeValue(s.now))
+			}
+		})
+		return was
 	}
 	intrinsics["time.runtimeNano"] = func(fr *frame, a []value) value { return cint(uint64(theSched.now + 1)) }
 	intrinsics["time.now"] = func(fr *frame, a []value) value {
